@@ -26,12 +26,14 @@ def BSpec.safe : BSpec φ κ → Bool
   | .terms _ size minDoc _ => size.isNone && decide (minDoc ≤ 1)
   | .rare _ _ _ => false
   | .hist _ _ _ minDoc _ _ _ => decide (minDoc ≤ 1)
+  | .dhist _ _ _ minDoc _ _ _ => decide (minDoc ≤ 1)
   | .composite srcs _ _ => srcs.all CSrc.isF64
   | _ => true
 
 mutual
 def Agg.safe : Agg φ κ → Bool
   | .bucket b subs => b.safe && subs.safe
+  | .topHits _ _ _ => false
   | _ => true
 def Aggs.safe : Aggs φ κ → Bool
   | .nil => true
@@ -42,6 +44,7 @@ end
 def BSpec.minOf : BSpec φ κ → Nat
   | .terms _ _ minDoc _ => minDoc
   | .hist _ _ _ minDoc _ _ _ => minDoc
+  | .dhist _ _ _ minDoc _ _ _ => minDoc
   | _ => 0
 
 theorem BSpec.minOf_le {b : BSpec φ κ} (hs : b.safe = true) : b.minOf ≤ 1 := by
@@ -76,6 +79,7 @@ theorem finishSeg_safe {b : BSpec φ κ} (hs : b.safe = true) (bs : Buckets κ) 
     simp only [finishSeg, keepTop, BSpec.minOf]; rfl
   | rare _ _ _ => simp [BSpec.safe] at hs
   | hist _ _ _ _ _ _ _ => simp only [finishSeg, BSpec.minOf]; rfl
+  | dhist _ _ _ _ _ _ _ => simp only [finishSeg, BSpec.minOf]; rfl
   | range _ _ _ => simp only [finishSeg, BSpec.minOf]; exact (filter_keepMin_zero bs).symm
   | filter _ => simp only [finishSeg, BSpec.minOf]; exact (filter_keepMin_zero bs).symm
   | composite _ _ _ => simp only [finishSeg, BSpec.minOf]; exact (filter_keepMin_zero bs).symm
@@ -207,6 +211,9 @@ theorem specPost_map (b : BSpec φ κ) (g : List (Node κ) → List (Node κ)) (
     rw [filter_onChildren g _ (fun _ => rfl), sortBy_map rareLt rareLt (onChildren g)
       (rareLt_onChildren g), truncate_map]
   | hist _ _ _ _ _ _ _ =>
+    simp only [specPost]
+    rw [filter_onChildren g _ (fun _ => rfl)]
+  | dhist _ _ _ _ _ _ _ =>
     simp only [specPost]
     rw [filter_onChildren g _ (fun _ => rfl)]
   | range _ _ _ => simp [specPost, finalPost]
